@@ -11,7 +11,7 @@ EXTENDS SnapInstall
 VARIABLE pending
 
 \* (a sequence, so that kinds can be weighted)
-Kinds == <<"lwrite", "lwrite", "lwrite", "lmembers", "lcompact", "lcompact", "replicate", "replicate", "start", "start", "start",
+Kinds == <<"lwrite", "lwrite", "lwrite", "lmembers", "lcompact", "lcompact", "replicate", "replicate", "fecho", "fecho", "start", "start", "start",
            "chunk_ack", "chunk_ack", "chunk_ack", "chunk_ack", "chunk_ack", "chunk_ack", "chunk_lost", "chunk_lost",
            "abort", "fcrash", "fstart", "fstart">>
 
@@ -25,6 +25,7 @@ SimNext ==
     \/ /\ pending = "lmembers" /\ pending' = "none" /\ \E m \in MemberSets : LMembers(m)
     \/ /\ pending = "lcompact" /\ pending' = "none" /\ \E k \in 1..MaxChunks : LCompact(k)
     \/ /\ pending = "replicate" /\ pending' = "none" /\ Replicate
+    \/ /\ pending = "fecho" /\ pending' = "none" /\ FEcho
     \/ /\ pending = "start" /\ pending' = "none" /\ StartStream
     \/ /\ pending = "chunk_ack" /\ pending' = "none" /\ (Chunk(TRUE) \/ DupFinal(TRUE))
     \/ /\ pending = "chunk_lost" /\ pending' = "none" /\ (Chunk(FALSE) \/ DupFinal(FALSE))
